@@ -348,22 +348,15 @@ def run(ctx):
         doc, toks = deep_case(ctx.rng)
         spec_lines.append("tplspec 1 %s %s" % (enc(doc), ",".join(toks)))
         widths.append(ctx.rng.choice("1112W"))
-    # block tags nested >= 256 deep: the loop record's Level must not wrap (finding "loop level wrap":
-    # Level was SizeT8(parent_storage.Size()); an inner loop at container depth 256 overwrote the outer
-    # loop's current item).  The stream runs once the field is wide (notes/fix-tmpl-loop-level-wrap.diff).
-    try:
-        level_fixed = "SizeT8 Level" not in open(os.path.join(core.REPO, "Include", "Tags.hpp")).read()
-    except OSError:
-        level_fixed = False
-    if level_fixed or os.environ.get("C02_FORCE_LEVEL_STREAM"):
-        for d in [257, 257, 258, 513] + ([300, 769, 1025] if ctx.thorough else []):
-            import sys
-            sys.setrecursionlimit(max(sys.getrecursionlimit(), 4 * d + 200))
-            doc, toks = deep_case(ctx.rng, depth=d)
-            spec_lines.append("tplspec 1 %s %s" % (enc(doc), ",".join(toks)))
-            widths.append("1")
-    else:
-        ctx.notes.append("loop Level is an 8-bit field in this tree: the stream 'block tags nested >= 256 deep' is skipped (finding reported; notes/fix-tmpl-loop-level-wrap.diff)")
+    # block tags nested >= 256 deep: the loop record's Level must not wrap (repaired defect: Level was
+    # SizeT8(parent_storage.Size()); an inner loop at container depth 256 overwrote the outer loop's
+    # current item; /repo commit "fix: loop nesting level is not truncated to 8 bits").
+    for d in [257, 257, 258, 513] + ([300, 769, 1025] if ctx.thorough else []):
+        import sys
+        sys.setrecursionlimit(max(sys.getrecursionlimit(), 4 * d + 200))
+        doc, toks = deep_case(ctx.rng, depth=d)
+        spec_lines.append("tplspec 1 %s %s" % (enc(doc), ",".join(toks)))
+        widths.append("1")
     for _ in range(N // 20):          # wide units with an ASCII-digit low byte inside {..} of a phrase
         w = ctx.rng.choice("24W")
         doc, toks = wide_svar_case(ctx.rng, w)
